@@ -355,19 +355,18 @@ impl Scenario for Svc {
             x.ready[c] = Some((ctl, h));
         }
     }
+    fn retain_completed(&self) -> bool {
+        true
+    }
     fn arrive(&self, w: &mut World, x: &mut X, c: usize, _v: u8) {
         let (which, mut h) = x.ready[c].take().expect("arrive without readiness");
         // the request's key names the service it goes through
         let req = Req::new(c as u32, which);
         let fut: trv_core::world::CallerFut = match &mut h {
-            Handle::A(s) => {
-                let f = s.call(req.clone());
-                Box::pin(async move { map(f.await) })
-            }
-            Handle::V(s) => {
-                let f = s.call(req.clone());
-                Box::pin(async move { map(f.await) })
-            }
+            // `keep` does not drop the service's own future when it resolves: the explorer
+            // decides when a finished call's future goes away (join!, select! on &mut fut)
+            Handle::A(s) => trv_core::world::keep(s.call(req.clone()), map),
+            Handle::V(s) => trv_core::world::keep(s.call(req.clone()), map),
         };
         w.set_arrived(c, req, fut);
     }
